@@ -781,6 +781,8 @@ TIERS = {
 def main():
     tier = sys.argv[1] if len(sys.argv) > 1 else "quick"
     run = Run(PID, tier)
+    from harness.lie import touch_all as _touch_all
+    _touch_all()        # first uses of the Lie API happen BEFORE the models are derived (see harness/lie.py)
     P = TIERS[tier]
     F = Fns(zmaxes=(0, 4))
     ctx = Ctx(run, F)
